@@ -214,9 +214,11 @@ class H5Group:
             del self.group[name]
         except Exception:
             raise ValueError("Error deleting {} ".format(name))
-        # Delete if empty and non-root container
+        # Delete if empty and non-root container (an entity's own group carries
+        # attributes and must never be removed as a side effect)
         groupdepth = len(self.group.name.split("/")) - 1
-        if delete_if_empty and not len(self.group) and groupdepth > 1:
+        if (delete_if_empty and not len(self.group) and groupdepth > 1
+                and not len(self.group.attrs)):
             del self.parent.group[self.name]
             # del self.group
             self.group = None
